@@ -73,7 +73,12 @@ def apply_edit(fk, p, e, rng):
 
 
 def record_hist(fk, data, hist, rng, hid):
-    p = fk.Pickled.load(data)
+    p0 = fk.Pickled.load(data)
+    shared = list(p0)
+    p = fk.Pickled(shared)          # the object that is edited
+    sib = fk.Pickled(shared)        # a second object constructed from the very same list: must be unaffected
+    sib_views = {v: ask(sib, v) for v in ("source", "flags", "severity")}
+    sib_bytes = sib.dumps()
     steps = []
     for h in hist:
         if h in VIEWS:
@@ -97,6 +102,19 @@ def record_hist(fk, data, hist, rng, hid):
                 concat = False
             except Exception:  # noqa: BLE001
                 concat = True
+        if concat and k == "edit":
+            # the sibling: every view still equals a fresh object with ITS current opcode list, and its bytes
+            # are the concatenation of its opcodes
+            try:
+                sl = list(sib)
+                concat = sib.dumps() == b"".join(o.data for o in sl)
+                if concat and any(ask(sib, v) != ask(fk.Pickled(list(sl)), v) for v in sib_views):
+                    obj, fresh, k2 = "sibling-stale", "sibling-fresh", "read"
+                    steps.append({"k": k, "name": h, "obj": "", "fresh": "", "concat": True, "exc": exc})
+                    steps.append({"k": k2, "name": "sibling-view", "obj": obj, "fresh": fresh, "concat": True, "exc": ""})
+                    continue
+            except Exception:  # noqa: BLE001
+                pass
         steps.append({"k": k, "name": h, "obj": obj, "fresh": fresh, "concat": bool(concat), "exc": exc})
     return {"id": hid, "hex": data.hex(), "hist": hist, "steps": steps}
 
